@@ -256,6 +256,21 @@ where
     app.push(Ev::PubRead { seq, data, end });
 }
 
+/// read a payload to the end in a task of its own and log the result
+pub fn read_detached(app: Rc<App>, seq: u32, pl: ntex_mqtt::Payload) {
+    ntex::rt::spawn(async move {
+        let mut data = Vec::new();
+        let end = loop {
+            match pl.read().await {
+                Ok(Some(b)) => data.extend_from_slice(&b),
+                Ok(None) => break ReadEnd::Eof,
+                Err(e) => break ReadEnd::Err(format!("{e:?}")),
+            }
+        };
+        app.push(Ev::PubRead { seq, data, end });
+    });
+}
+
 /// log the result of `read_all()`
 pub fn read_whole(app: &App, seq: u32, r: Result<Bytes, ntex_mqtt::error::PayloadError>) {
     match r {
@@ -278,17 +293,19 @@ fn seen_of(p: &codec::Publish, route: u8) -> Seen {
     }
 }
 
-async fn publish_handler(app: Rc<App>, p: v5::Publish, route: u8) -> Result<v5::PublishAck, AppErr> {
+async fn publish_handler(app: Rc<App>, mut p: v5::Publish, route: u8) -> Result<v5::PublishAck, AppErr> {
     let seq = app.next_pub_seq();
     let size = u64::from(p.packet_size());
     app.enter_pub(size);
     let mut guard = DropGuard { app: app.clone(), seq, publish: true, size, done: false };
     app.push(Ev::PubEnter { seq, seen: seen_of(p.packet(), route) });
+    app.entered(seq);
     let plan = app.pub_plan(seq);
     match plan.read {
         ReadPlan::Eager => read_payload(&app, seq, || p.read(), None).await,
         ReadPlan::ReadK(k) => read_payload(&app, seq, || p.read(), Some(k)).await,
         ReadPlan::EagerAll => read_whole(&app, seq, p.read_all().await),
+        ReadPlan::Detached => read_detached(app.clone(), seq, p.take_payload()),
         _ => {}
     }
     app.wait(G_PUB, seq).await;
